@@ -64,7 +64,7 @@ BODIES = {
 ENDPOINTS = ['/authenticate', '/refresh', '/validate', '/signout', '/invalidate', '/join']
 
 
-def judge(out, after, got_reqs, r):
+def judge(out, after, got_reqs, r, agent=('Minecraft', 1)):
     """compares one observed operation with the model's (outcome, token afterwards, requests)"""
     mout, mtok, mreqs = r
     what = None
@@ -87,7 +87,7 @@ def judge(out, after, got_reqs, r):
                 elif v[0] == 1:
                     d[key] = '<fresh>'
                 elif v[0] == 2:
-                    d[key] = {'name': 'Minecraft', 'version': 1}
+                    d[key] = {'name': agent[0], 'version': agent[1]}
                 else:
                     d[key] = {'id': ''.join(map(chr, v[1][0])) if v[1] else None, 'name': ''.join(map(chr, v[2][0])) if v[2] else None}
             exp.append((('/session/minecraft' if sess else '') + ENDPOINTS[ep], d))
@@ -211,7 +211,12 @@ def run(chk):
             return out, got
         seqs, sreqs = [], []
         for n in range(400 if th else 80):
-            tok = A.AuthenticationToken()
+            # a game other than Minecraft is a subclass overriding the agent constants (documented in the class)
+            class Scrolls(A.AuthenticationToken):
+                AGENT_NAME = 'Scrolls'
+                AGENT_VERSION = 2
+            tok = Scrolls() if n % 5 == 4 else A.AuthenticationToken()
+            agent = (type(tok).AGENT_NAME, type(tok).AGENT_VERSION)
             seq = []
             # most sequences start by authenticating, so that the later steps act on a live token
             first = [('authenticate', 'alice', 'pw', False)] if n % 4 else []
@@ -235,15 +240,15 @@ def run(chk):
                 mop = {'authenticate': lambda: [0, s_(op[1]), s_(op[2]), op[3]], 'refresh': lambda: [1], 'validate': lambda: [2], 'invalidate': lambda: [3],
                        'join': lambda: [4, s_(op[1])], 'sign_out': lambda: [5, s_(op[1]), s_(op[2])]}[op[0]]()
                 sreqs.append(('auth_perform', [[opt(x) for x in before], mop, status, [4] if status == 204 else mbody]))
-                seqs.append(([list(x) for x in seq], before, out, after, got, op, status))
+                seqs.append(([list(x) for x in seq], before, out, after, got, op, status, agent))
                 chk.count('sequence', [seq[:], payload if isinstance(payload, dict) else bk], len(seq) > 1)
                 chk.tally('sequence:%s' % op[0])
         stop_after = set()
-        for (seq, before, out, after, got, op, status), r in zip(seqs, run_model(sreqs)):
+        for (seq, before, out, after, got, op, status, agent), r in zip(seqs, run_model(sreqs)):
             key = repr(seq[:-1])
             if any(key.startswith(x) for x in stop_after):
                 continue
-            what, exp_after = judge(out, after, got, r)
+            what, exp_after = judge(out, after, got, r, agent)
             if r[0][0] == 4:
                 continue
             if what is None and out[0] in (2, 3, 'raised') and after != before:
